@@ -37,6 +37,9 @@ fwrite (const void *ptr, size_t size, size_t n, FILE *f)
 	VASSERT (f == (FILE *) sm_file_obj && sm.open > 0, "fwrite on an open stream") ;
 	if (size == 0 || n == 0) return 0 ;
 	if (nd_fw > n) nd_fw = n ;		/* short write: disk full */
+#ifdef SM_RELIABLE
+	nd_fw = n ;				/* (harnesses that are not about faults) */
+#endif
 	VASSERT (V_R_OK (ptr, size * nd_fw), "fwrite source readable") ;
 	sm.pos += (long) (size * nd_fw) ;
 	if (sm.pos > sm.len) sm.len = sm.pos ;
